@@ -13,6 +13,10 @@
 // history plus one operation. After the new operation the full observation
 // set of every live backoffer is compared with the reference accountant
 // (ref.go). States are deduplicated by the canonical reference state.
+//
+// A second part (chains.go) covers what the depth bound of the search cannot:
+// long chains (>= 128 back-offs) of one kind / two kinds on one backoffer for
+// every kind incl. a synthetic grid of configs, judged after every step.
 package main
 
 import (
@@ -444,6 +448,15 @@ func doReplay(path string) {
 		fmt.Fprintln(os.Stderr, "replay:", err)
 		os.Exit(2)
 	}
+	var raw struct {
+		Replay json.RawMessage `json:"replay"`
+	}
+	var probe struct {
+		Suite string `json:"suite"`
+	}
+	if err := json.Unmarshal(b, &raw); err == nil && json.Unmarshal(raw.Replay, &probe) == nil && probe.Suite == "chains" {
+		replayChain(raw.Replay, path) // a chain program (chains.go); does not return
+	}
 	var f struct {
 		Key    string    `json:"key"`
 		Replay replayArt `json:"replay"`
@@ -488,6 +501,7 @@ func main() {
 	log.ReplaceGlobals(zap.NewNop(), &log.ZapProperties{}) // exhaustion and kill are logged at Warn/Info
 	debug.SetGCPercent(400)                                // allocation heavy, small live heap
 	initKinds()
+	initChainKinds()
 	installRouter()
 	for i, a := range os.Args {
 		if a == "--replay" && i+1 < len(os.Args) {
@@ -504,6 +518,7 @@ func main() {
 	run = ev.Start("C20", "model_checking")
 	samples = ev.NewSamples(12, run.Seed)
 	ss := suitesFor(run.Thorough())
+	withChains := true
 	if sel := os.Getenv("VERIF_C20_SUITES"); sel != "" { // development aid: run a subset (the evidence then says so)
 		var keep []*suite
 		for _, s := range ss {
@@ -512,6 +527,7 @@ func main() {
 			}
 		}
 		ss = keep
+		withChains = strings.Contains(","+sel+",", ",chains,")
 		run.Incomplete("only suites " + sel + " were run (VERIF_C20_SUITES)")
 	}
 	bounds := map[string]any{"budgets_ms": budgets, "weights": weights, "jitter_answers": "min,max", "excluded_cap_ms": excludedLimitMs}
@@ -532,6 +548,24 @@ func main() {
 		bounds["depth_"+s.name] = s.depth
 		perSuite[s.name] = map[string]any{"depth": s.depth, "states": nStates - before, "transitions": nTransitions.Load() - tBefore,
 			"alphabet_backoff_calls": len(s.backoffs), "max_live_backoffers": s.maxLive, "budget_weight_pairs": cfgs}
+	}
+	// part "chains" (chains.go): long chains of one kind / two kinds on one backoffer, every kind incl. a synthetic grid
+	if withChains {
+		cs := runChains(run.Thorough())
+		// every executed chain operation reaches a state no other (program, position) reaches: programs differ in
+		// their configuration and positions in their counters, so the states of this part are counted as they are visited
+		nStates += cs.states
+		nNontrivial += cs.states
+		nTransitions.Add(cs.steps)
+		nOpsExecuted.Add(cs.steps)
+		cb := cs.bounds
+		bounds["chains"] = map[string]any{
+			"len_single": cb.lenSingle, "derive_every_single": cb.everySingle, "len_pair": cb.lenPair, "derive_every_pair": cb.everyPair, "steps_on_derived_backoffer": cb.tailSingle,
+			"kinds": cs.kinds, "synthetic_kinds": cs.synth, "kinds_in_pairs": cs.pairKinds, "synthetic_bases": synthBases, "synthetic_caps": synthCaps,
+			"jitter_modes": "none,full,equal,decorr", "patterns": "single,alternate,halves", "budget_modes": budNames, "per_call_max_single": "none,0,5,cap-1", "variants": varNames,
+			"steps_after_first_refusal": chainAfterRefusal,
+		}
+		perSuite["chains"] = map[string]any{"programs": cs.programs, "programs_reaching_exhaustion": cs.refusedPrograms, "states": cs.states, "transitions": cs.steps, "max_overshoot_over_budget_ms": cs.maxOvershoot, "len_single": cb.lenSingle, "len_pair": cb.lenPair}
 	}
 	if stopProfile != nil {
 		stopProfile()
@@ -559,7 +593,9 @@ func main() {
 			"(jitter minimum/maximum, optional context cancellation or kill in the middle of the sleep); each transition is executed on the real Backoffer (fresh instance + replay of the shortest history) " +
 			"and compared with the reference accountant; states = distinct canonical reference states (final level counted by 64-bit key prefix), transitions = checked (state, operation) pairs, " +
 			"non-trivial = states in which at least one back-off was accounted; suite kinds: one backoffer x every built-in kind + a custom FullJitter config; suite family: up to 3 live backoffers (clone/fork/merge/cancel/kill) x core kinds; " +
-			"thorough adds family-ext (three more back-off calls) and deep (a backoffer and one fork of it at a time, reduced alphabet, depth 8); see per_suite for depths and (budget, weight) pairs",
+			"thorough adds family-ext (three more back-off calls) and deep (a backoffer and one fork of it at a time, reduced alphabet, depth 8); see per_suite for depths and (budget, weight) pairs; " +
+			"part chains (no replay, oracle after every step on the same backoffer): for every kind (built-in + synthetic grid jitter mode x base x cap) every chain program single/alternate/halves of bounds.chains.len_* back-offs x jitter {min,max} per kind x " +
+			"budget {none, never reached, exactly the total at half of the chain, +1, half with weight 2, exactly the total at 7/8 of the chain} x per-call maximum x {Clone and Fork aside, Fork + UpdateUsingForked} every k-th step; its states = (program, position) pairs, its transitions = operations executed and judged",
 		"samples": samples.List(),
 	}, []string{
 		"the 10 min own cap of the budget-excluded kind (tikvServerBusy) is lowered to 3000ms with the package's own test-only setter so that exhausting it is reachable; the oracle bounds excluded sleep by max(own cap, budget) + one step because the code demands both (with budget <= cap this is the property's bound)",
@@ -567,8 +603,9 @@ func main() {
 		"the largest-sleeper rule is judged on the lifetime per-kind accounting (GetBackoffSleepMS), ties accept any tied kind, excluded kinds may or may not compete, an exhausted backoffer without any eligible kind may return the caller's error",
 		"a sleep cut by context cancellation is accounted as 0ms (documented in newBackoffFn); the budget bound is judged on accounted sleep, and accounted sleep equals virtual time slept for every completed sleep",
 		"a kill in the middle of a sleep is only demanded to be reported when that call returns (nothing can wake the sleeper); a kill before the call is demanded to be reported at once without sleeping and without accounting; an implementation that sleeps first is reported (kill:next-call-sleeps-before-reporting) and its accounting of that sleep is followed so that exploration continues",
-		"the exact exponential schedule (base*2^n, jitter range) is not demanded: only sleep <= cap and <= per-call maximum; a schedule different from the documented one marks the run non-exhaustive because deduplication relies on it",
+		"breadth-first suites: the exact exponential schedule (base*2^n, jitter range) is not demanded: only sleep <= cap and <= per-call maximum; a schedule different from the documented one marks the run non-exhaustive because deduplication relies on it",
+		"part chains: the documented schedule min(cap, base*2^n) with the documented jitter (NoJitter: exact; Full: Intn(v); Equal: v/2+Intn(v/2); Decorr: min(cap, base+Intn(3*last-base))) IS demanded step by step (it is what 'one step' and 'the exponential cap of its kind' of the property refer to); DecorrJitter configs with cap < base are not explored (3*cap-base <= 0 makes the documented draw range empty)",
 		"GetTypes is only required to list the kinds the backoffer itself recorded or inherited (after a merge: those both sides had)",
-		"jitter answers are the two ends of the drawn range only; DecorrJitter is not used by any built-in kind and is not explored",
+		"jitter answers are the two ends of the drawn range only (in a chain: the same end at every step of a kind); DecorrJitter is not used by any built-in kind and is explored by the chains part only",
 	})
 }
